@@ -19,6 +19,7 @@ pub mod drivers;
 pub mod c08;
 pub mod c20_gpu;
 pub mod c20_misc;
+pub mod c20_snd;
 use crate::Ctx;
 pub fn run(prop: &str, ctx: &mut Ctx) -> bool {
     match prop {
@@ -44,7 +45,7 @@ pub fn run(prop: &str, ctx: &mut Ctx) -> bool {
         "C17" => c17::run(ctx),
         "C09" => c09::run(ctx),
         "C08" => c08::run(ctx),
-        "C20" => { c20_gpu::run(ctx); c20_misc::run(ctx); }
+        "C20" => { c20_gpu::run(ctx); c20_misc::run(ctx); c20_snd::run(ctx); }
         _ => return false,
     }
     true
